@@ -375,6 +375,14 @@ fn issuer_inputs() -> Vec<(Value, Strat)> {
             out.push((t.clone(), s));
         }
     }
+    // a caller-supplied top-level cnf of every JSON type (the second issuer configuration binds a holder key)
+    for cnf in [json!("x"), json!(1), json!(1.5), json!(true), Value::Null, json!([]), json!([1, {"jwk": 1}]), json!({}), json!({"jwk": 1}), json!({"jwk": {"kty": "EC"}, "kid": [1]}), json!("")] {
+        for u in [json!({"iss": gen::ISS, "exp": gen::EXP, "cnf": cnf.clone(), "a": 1}), json!({"cnf": cnf.clone()}), json!({"a": {"cnf": cnf.clone()}, "cnf": cnf.clone(), "iss": gen::ISS, "exp": gen::EXP})] {
+            for s in [Strat::NoSd, Strat::Top, Strat::All, Strat::Custom(vec!["$.cnf".into()]), Strat::Custom(vec!["$.a".into()]), Strat::Custom(vec!["$.cnf.jwk".into(), "$.cnf[1]".into()])] {
+                out.push((u.clone(), s));
+            }
+        }
+    }
     // depth chains
     for k in [16usize, 32, 64] {
         for pat in [0u64, u64::MAX, 0xAAAA_AAAA_AAAA_AAAA] {
@@ -758,8 +766,17 @@ fn run_one(g: &Groups, group: &str, i: usize, l: &mut Local) {
     }
     match group {
         "deep" => {
-            let (name, s, fmt) = &g.deep[i];
-            op_string(s, *fmt, &format!("deep:{name}"), l);
+            // on a thread with Rust's default 2 MiB stack (what a caller's worker thread has), not on the 8 MiB main thread
+            let (name, s, fmt) = g.deep[i].clone();
+            let h = std::thread::Builder::new().stack_size(2 * 1024 * 1024).spawn(move || {
+                let mut l2 = Local::default();
+                op_string(&s, fmt, &format!("deep:{name}"), &mut l2);
+                l2
+            });
+            match h.map(|h| h.join()) {
+                Ok(Ok(l2)) => l.absorb(l2),
+                _ => l.violation(Violation::new("worker", "panic", "deep_thread", "deep", format!("deep case {i} did not return"), json!({"kind": "c07", "group": "deep", "index": i}))),
+            }
             l.nontrivial += 1;
         }
         "issuer" => {
